@@ -106,9 +106,10 @@ func checkC12(c *Ctx) {
 			a := call.Call.Args // s, data, out, bits, ad, adbits, tag
 			freshRoot := func(v ssa.Value) bool {
 				root, _ := accessPath(v)
-				switch x := root.(type) {
-				case *ssa.MakeSlice:
+				if freshSliceRoot(root) {
 					return true
+				}
+				switch x := root.(type) {
 				case *ssa.Alloc:
 					return x.Heap || true
 				case *ssa.Extract:
@@ -121,8 +122,7 @@ func checkC12(c *Ctx) {
 			}
 			dataFresh := func() bool {
 				root, _ := accessPath(a[1])
-				_, isMake := root.(*ssa.MakeSlice)
-				return isMake
+				return freshSliceRoot(root)
 			}()
 			c.Check(dataFresh, "C12.R2", name+"#input-copy", P.InstrPos(call), "input handed down is a private copy", spec.fn+" hands "+spec.callee+" a view of the caller's buffer: when dst overlaps the input the data is overwritten while it is still being read")
 			if spec.callee == "unwrap" {
@@ -130,7 +130,7 @@ func checkC12(c *Ctx) {
 				tagOK := false
 				if sl, ok := strip(a[6]).(*ssa.Slice); ok && sl.High == nil && sl.Low != nil {
 					root, _ := accessPath(sl.X)
-					if _, isMake := root.(*ssa.MakeSlice); isMake {
+					if freshSliceRoot(root) {
 						tagOK = true
 					}
 				}
